@@ -595,6 +595,16 @@ pub fn check(scn: &C11Scenario, stats: &mut RunStats) -> Result<Vec<Violation>, 
             return Ok(violations);
         }
         Outcome::BatchErr(ref_err) => {
+            // the generator never builds an invalid invocation or configuration: a
+            // reference run (no bad file, no fault) that fails as a whole means darklua
+            // refuses a tree it has to process file by file
+            stats.unexpected_reference_errors += 1;
+            violations.push(Violation::new(
+                P,
+                "map",
+                "healthy-project-fails",
+                format!("the reference run (no faulty file, no fault) fails as a whole: {}", ref_err),
+            ));
             // nothing can be said per file; the run under test must fail as a whole too
             match &a.outcome {
                 Outcome::BatchErr(_) => {}
@@ -1626,6 +1636,22 @@ pub fn generate(seed: u64) -> C11Scenario {
     scn.bad_files.dedup();
     scn.unwritable = unwritable_sources(&scn, &lay);
     scn.entries = entries;
+    // both default configuration files sit in the working directory although the run has
+    // its own configuration (an object, `--config <path>`, `darklua minify`): they must not
+    // even be looked at
+    if !matches!(scn.opts.config, ConfigSource::Default) && rk.chance(1, 8) {
+        for (name, text) in [
+            (".darklua.json", "{\"rules\":[\"remove_comments\",\"remove_spaces\"],\"generator\":\"dense\"}"),
+            (".darklua.json5", "{ this is not, a configuration"),
+        ] {
+            if !scn.entries.iter().any(|e| e.path == name) {
+                scn.entries.push(FsEntry {
+                    path: name.to_owned(),
+                    body: Body::Text(text.to_owned()),
+                });
+            }
+        }
+    }
     // the other way to process in place: the input directory itself as output location,
     // spelled the same way or not
     if scn.opts.output.is_none() && !project.input_is_file && rk.chance(1, 3) {
